@@ -4,8 +4,8 @@
 mod shapes;
 
 use pavex::request::RequestHead;
-use pavex::request::body::errors::ExtractUrlEncodedBodyError;
-use pavex::request::body::{BufferedBody, UrlEncodedBody};
+use pavex::request::body::errors::{ExtractJsonBodyError, ExtractUrlEncodedBodyError};
+use pavex::request::body::{BufferedBody, JsonBody, UrlEncodedBody};
 use pavex::request::path::errors::{ErrorKind, ExtractPathParamsError};
 use pavex::request::path::{PathParams, RawPathParams};
 use pavex::request::query::QueryParams;
@@ -200,14 +200,79 @@ async fn buffered(head: &RequestHead, body: Vec<u8>) -> Option<BufferedBody> {
     .ok()
 }
 
+/// `"ct"`: absent / null = no `Content-Type` header, `[bytes]` = its value.
+fn content_type(req: &Json) -> Result<Option<http::HeaderValue>, ()> {
+    match req.get("ct") {
+        None | Some(Json::Null) => Ok(None),
+        Some(v) => {
+            let b = bytes_of(Some(v)).ok_or(())?;
+            http::HeaderValue::from_bytes(&b).map(Some).map_err(|_| ())
+        }
+    }
+}
+
+/// The `Content-Type` gate alone (the body is a well-formed empty document of the right kind).
+async fn op_ct(req: &Json) -> Json {
+    let Ok(ct) = content_type(req) else { return bad_op() };
+    let head = head("/".parse().unwrap(), ct);
+    match req.get("kind").and_then(|v| v.as_str()) {
+        Some("json") => {
+            let Some(body) = buffered(&head, b"{}".to_vec()).await else { return json!({"r": "buffer-failed"}) };
+            match JsonBody::<shapes::QO0>::extract(&head, &body) {
+                Ok(_) => json!({"r": "ct-ok"}),
+                Err(ExtractJsonBodyError::MissingContentType(_)) => json!({"r": "err", "kind": "ct-missing"}),
+                Err(ExtractJsonBodyError::ContentTypeMismatch(_)) => json!({"r": "err", "kind": "ct-mismatch"}),
+                Err(_) => json!({"r": "err", "kind": "other"}),
+            }
+        }
+        Some("form") => {
+            let Some(body) = buffered(&head, Vec::new()).await else { return json!({"r": "buffer-failed"}) };
+            match UrlEncodedBody::<shapes::QO0>::extract(&head, &body) {
+                Ok(_) => json!({"r": "ct-ok"}),
+                Err(ExtractUrlEncodedBodyError::MissingContentType(_)) => json!({"r": "err", "kind": "ct-missing"}),
+                Err(ExtractUrlEncodedBodyError::ContentTypeMismatch(_)) => json!({"r": "err", "kind": "ct-mismatch"}),
+                Err(_) => json!({"r": "err", "kind": "other"}),
+            }
+        }
+        _ => bad_op(),
+    }
+}
+
+/// `JsonBody::<T>::extract` (oracle-only: serde_json itself is not modelled in Lean).
+async fn op_json(req: &Json) -> Json {
+    let (Some(body), Some(shape)) = (bytes_of(req.get("body")), req.get("shape").and_then(|v| v.as_str())) else {
+        return bad_op();
+    };
+    let Ok(ct) = content_type(req) else { return bad_op() };
+    let head = head("/".parse().unwrap(), ct);
+    let Some(body) = buffered(&head, body).await else { return json!({"r": "buffer-failed"}) };
+    with_shape!(shape, T => match JsonBody::<T<'_>>::extract(&head, &body) {
+        Ok(p) => json!({"r": "ok", "v": p.0.to_val()}),
+        Err(ExtractJsonBodyError::MissingContentType(_)) => json!({"r": "err", "kind": "ct-missing"}),
+        Err(ExtractJsonBodyError::ContentTypeMismatch(_)) => json!({"r": "err", "kind": "ct-mismatch"}),
+        Err(ExtractJsonBodyError::DeserializationError(e)) => {
+            // JsonDeserializationError { source: serde_path_to_error::Error<serde_json::Error> }
+            let src = std::error::Error::source(&e).map(|s| s.to_string()).unwrap_or_default();
+            let kind = if src.contains("EOF while parsing") {
+                "json-eof"
+            } else if src.contains("missing field") || src.contains("duplicate field") || src.contains("invalid type")
+                || src.contains("invalid value") || src.contains("invalid length") || src.contains("unknown field") {
+                "json-data"
+            } else {
+                "json-syntax"
+            };
+            json!({"r": "err", "kind": kind, "msg": src})
+        }
+        Err(_) => json!({"r": "err", "kind": "other"}),
+    }, else bad_op())
+}
+
 async fn op_form(req: &Json) -> Json {
     let (Some(body), Some(shape)) = (bytes_of(req.get("body")), req.get("shape").and_then(|v| v.as_str())) else {
         return bad_op();
     };
-    let head = head(
-        "/".parse().unwrap(),
-        Some(http::HeaderValue::from_static("application/x-www-form-urlencoded")),
-    );
+    let Ok(ct) = content_type(req) else { return bad_op() };
+    let head = head("/".parse().unwrap(), ct);
     let Some(body) = buffered(&head, body).await else { return json!({"r": "buffer-failed"}) };
     with_shape!(shape, T => match UrlEncodedBody::<T<'_>>::extract(&head, &body) {
         Ok(p) => json!({"r": "ok", "v": p.0.to_val()}),
@@ -288,6 +353,8 @@ async fn handle(req: Json) -> Json {
         "path" => op_path(req),
         "query" => op_query(req),
         "form" => op_form(req).await,
+        "ct" => op_ct(req).await,
+        "json" => op_json(req).await,
         _ => bad_op(),
     }
 }
